@@ -60,8 +60,9 @@ func (f *funcAssertionNode) DefaultTrigger() annotation.ProducingAnnotationTrigg
 		f.decl.Pkg() == root.Pass().Pkg {
 		// The callee has a contract, so (as for calls with non-constant arguments, see
 		// getFuncReturnProducers) the result of this call is the call-site result site that the
-		// duplicated triggers of the callee write to, not the shared result site. Contracted
-		// functions of other packages have no duplicated triggers here, so we keep the shared
+		// duplicated triggers of the callee write to, not the shared result site. The triggers of
+		// contracted functions of other packages cannot be duplicated; the arguments of their
+		// calls flow into their shared parameter sites instead, so we keep the shared result
 		// site for them.
 		return &annotation.FuncReturn{
 			TriggerIfNilable: &annotation.TriggerIfNilable{
